@@ -97,6 +97,42 @@ CHECKS = {
        "form-against-form, not against the model. Holds only after fix 3779468 (F1).",
   tech="Lean 4 `decide` over model data regenerated from the source (translator) + Lean proof of registry "
        "independence + direct-vs-decorated differential in virtual time", ref="§5 C15"),
+ "C03": dict(
+  text="Lean machine of BufferAsyncCalls (Buffer/Model.lean: daemon program counter, timed queue read as its own "
+       "state machine, join/flag waiters) with step theorems C03_kept_on_failure (a failed call leaves the round's "
+       "input set untouched), C03_delivered_on_success, addInputs_superset (loading only adds); the machine is tied "
+       "to the real code by a virtual-time differential over random timed programs with every producer kind, "
+       "producer failures at every position, slow producers and failing function invocations; monitor: every "
+       "submitted element reaches exactly one successful call, nothing unsubmitted is delivered, the call after a "
+       "failed one is a superset",
+  note=NOTE_COMMON + "Partial: conservation over whole runs (every submitted element is eventually delivered) is "
+       "validated by the differential and the monitor, not yet a theorem; foreign-thread submission interleavings "
+       "are not explored by this check (single loop thread).",
+  tech="Lean 4 proof (step theorems of the buffer machine) + virtual-time model/implementation differential + "
+       "conservation monitor", ref="§5 Buffer"),
+ "C07": dict(
+  text="Lean theorems C07_shutdown_partial (cancelling the daemon terminates it in the idle and loading phases) and "
+       "C07_counterexample_shutdown_{timer_armed,function_running,loading_captured} (`decide`d model runs in which "
+       "the cancellation is swallowed and the daemon lives on: the full shutdown clause is false of the code, "
+       "finding F5); barrier and wait-returns are tied to the code by the virtual-time differential (wait(cancel="
+       "True/False) at grid instants, concurrent waiters, empty/failing/slow producers, failing calls) with a "
+       "barrier monitor, and shutdown is exercised asyncio.run-style at instants spread over each program: the "
+       "model's verdict (terminates / hangs, phase) must equal the real loop's",
+  note=NOTE_COMMON + "Known findings (known_findings.json): shutdown hangs in phases timer-armed, function-running, "
+       "loading-captured. Partial: the barrier is validated by differential + monitor, not yet a theorem. "
+       "Foreign-thread submit-then-wait_from_anywhere interleavings are not explored by this check.",
+  tech="Lean 4 proof (phase theorem + decide counter-examples) + virtual-time differential + barrier monitor + "
+       "shutdown hang detector", ref="§5 Buffer"),
+ "C08": dict(
+  text="Lean theorem C08_never_empty (the only step that calls the wrapped function does so with a non-empty set and "
+       "only when no call is in flight); debounce timing (no call while arrivals are < timeout apart, one call at "
+       "last arrival + timeout containing the burst) is tied to the code by the virtual-time differential comparing "
+       "every call's instant and contents over arrival grids straddling the timeout, with a quiet-period / burst "
+       "monitor (ties excluded)",
+  note=NOTE_COMMON + "Partial: the quiet-period and burst clauses are validated by differential + monitor, not yet "
+       "theorems.",
+  tech="Lean 4 proof (step theorem) + virtual-time differential on call instants + quiet-period monitor",
+  ref="§5 Buffer"),
 }
 
 def main():
